@@ -25,7 +25,7 @@ LEVEL_TEXT = ("Each regrouping is an independent real execution compared event-b
 LEVEL_NOTE = "trusted: the trace recorder in vf/sched.py; the classification of one known mechanism uses vf/models/cycle.py"
 ASSUMPTIONS = ["runs end by completion or limit only (the statement's scope)", "dyadic numbers so tymes compare exactly"]
 NSHARDS = {"quick": 8, "thorough": 16}
-REQUIRE = {"pairs_compared": 2000, "leaf_recur_steps_compared": 20000, "forced_exit_orders_compared": 300,
+REQUIRE = {"rehomed_pairs_compared": 800, "nondyadic_pairs_compared": 300, "pairs_compared": 2000, "leaf_recur_steps_compared": 20000, "forced_exit_orders_compared": 300,
            "groups_depth2plus": 100}
 
 
@@ -50,8 +50,17 @@ def cases(tier, seed, shard, nshards):
     n = (2000 if tier == "quick" else 30000) // nshards
     k = 3 if tier == "quick" else 5
     for _ in range(n):
-        flat = gen_sched.gen_prog(rng, dyadic=True, nmax=8, depth=0, group_p=0.0,
+        nondy = rng.random() < 0.2
+        flat = gen_sched.gen_prog(rng, dyadic=not nondy, nmax=8, depth=0, group_p=0.0,
                                   leaf_kw={"enter_finish_p": rng.choice([0.05, 0.3])})
+        if nondy:
+            # non-dyadic floats: two real executions do the same float operations, so they must still agree exactly.
+            # Only strictly positive yields here: the recorded asap-inside-a-DoDoer finding is classified with an
+            # exact-rational model, which cannot be trusted to classify next to float ties.
+            pos = [0.1, 0.07, 1 / 3, 0.7, 0.25, 1.1, 0.2, 0.3]
+            for lf in gen_sched.leaves_of(flat["doers"]):
+                lf["ys"] = [y if y else rng.choice(pos) for y in (lf.get("ys") or [])] or [rng.choice(pos)]
+        flat["rehome_tyme"] = rng.choice([None, None, 0.0, 5.0, 2.5]) if not nondy else rng.choice([None, 0.0, 2.7])
         nested = []
         for _ in range(k):
             ids = gen_sched.Ids()
@@ -101,11 +110,14 @@ def model_recurs(prog, asap, leaf_ids):
 def run_case(case, ctx):
     flat = case["flat"]
     leaf_ids = {lf["id"] for lf in gen_sched.leaves_of(flat["doers"])}
-    mflat = cycle.Model(flat, "next", True).run()
-    if mflat.done == "runaway":
-        ctx.count("model_runaway_skipped")
-        return
-    budget = mflat.ncycles * 2 + 20
+    if flat.get("dyadic", True):
+        mflat = cycle.Model(flat, "next", True).run()
+        if mflat.done == "runaway":
+            ctx.count("model_runaway_skipped")
+            return
+        budget = mflat.ncycles * 2 + 20
+    else:
+        budget = sched.cycle_budget(flat)
     rf = sched.execute(flat, max_cycles=budget)
     pf = project(rf, leaf_ids)
     if pf["result"][0] != "return":
@@ -117,6 +129,8 @@ def run_case(case, ctx):
         rn = sched.execute(nested, max_cycles=budget)
         pn = project(rn, leaf_ids)
         ctx.count("pairs_compared")
+        if not flat.get("dyadic", True):
+            ctx.count("nondyadic_pairs_compared")
         ctx.count("leaf_recur_steps_compared", len(pf["recurs"]))
         if pf["forced"]:
             ctx.count("forced_exit_orders_compared")
@@ -141,7 +155,7 @@ def run_case(case, ctx):
             bad = ("forced-exit-order", f"flat forced={pf['forced']} exits={pf['exits']}; nested forced={pn['forced']} exits={pn['exits']}")
         if bad:
             key = "nesting-not-transparent:" + bad[0]
-            if bad[0] in ("recurs", "completion", "done-flags", "forced-exit-order"):
+            if bad[0] in ("recurs", "completion", "done-flags", "forced-exit-order") and flat.get("dyadic", True):
                 # known mechanism: inside a tock-0 DoDoer an asap re-run is stored as due = current tyme
                 # (tyme + DoDoer.tock) instead of the next cycle's tyme, so a later positive tock is counted from
                 # one cycle too early.  Recognised by the nested run matching the literal "own tock" model exactly
@@ -153,6 +167,26 @@ def run_case(case, ctx):
             ctx.violation(key, bad[1], case={"flat": flat, "nested": [nested]},
                           trace=["FLAT"] + sched.compact(rf, 150) + ["NESTED"] + sched.compact(rn, 200))
             continue
+        # the same doer objects re-homed under a NEW Doist that starts at another tyme: still transparent
+        if flat.get("rehome_tyme") is not None and pf["result"][0] == "return":
+            f2 = dict(flat, tyme=flat["rehome_tyme"], do_args=False)
+            n2 = dict(nested, tyme=flat["rehome_tyme"], do_args=False)
+            rf2 = sched.execute(f2, max_cycles=budget, reuse=rf if ni == 0 else sched.execute(flat, max_cycles=budget))
+            rn2 = sched.execute(n2, max_cycles=budget, reuse=rn)
+            pf2, pn2 = project(rf2, leaf_ids), project(rn2, leaf_ids)
+            ctx.count("rehomed_pairs_compared")
+            diff = next((k for k in ("result", "enters", "recurs", "ncyc", "done", "flags", "forced", "exits")
+                         if pf2[k] != pn2[k]), None)
+            if diff:
+                key = "nesting-not-transparent:after-rehoming-under-new-doist:" + diff
+                own, _ = model_recurs(n2, "own", leaf_ids) if flat.get("dyadic", True) else (None, None)
+                nxt, _ = model_recurs(f2, "next", leaf_ids) if flat.get("dyadic", True) else (None, None)
+                if own is not None and pn2["recurs"] == own and pf2["recurs"] == nxt and own != nxt:
+                    key = "asap-inside-tock0-dodoer-due-not-advanced"
+                ctx.violation(key, f"second run from tyme {flat['rehome_tyme']}: flat {str(pf2[diff])[:300]} nested {str(pn2[diff])[:300]}",
+                              case={"flat": flat, "nested": [nested]},
+                              trace=["FLAT2"] + sched.compact(rf2, 120) + ["NESTED2"] + sched.compact(rn2, 160))
+                continue
         nl = len(leaf_ids)
         if nl >= 3 and pf["ncyc"] >= 3 and any(len(g["doers"]) >= 2 for g in gen_sched.groups_of(nested["doers"])):
             ctx.nontrivial([[(lf["kind"], lf.get("ys"), lf.get("end"), lf.get("enter")) for lf in gen_sched.leaves_of(flat["doers"])],
